@@ -28,7 +28,10 @@ import SpectraVerif.Proofs.C08TridiagQ
 import SpectraVerif.Proofs.C08TridiagMatrix
 import SpectraVerif.Proofs.C08DsqrQ
 import SpectraVerif.Proofs.C08DsqrMatrix
+import SpectraVerif.Proofs.C08DsqrSimF
+import SpectraVerif.Proofs.C08DsqrSimG
 import Mathlib.Analysis.Real.Sqrt
+import Mathlib.LinearAlgebra.Matrix.Charpoly.Basic
 
 set_option linter.unusedSectionVars false
 
@@ -364,9 +367,10 @@ theorem c08_refl_orthogonal {R : Type} [CommRing R] (u0 u1 u2 x0 x1 x2 y0 y1 y2 
   It is FALSE of the unchanged tree for matrices whose subdiagonal entries are below `min()·10·n/eps` (≈ n·1e-291 for double,
   ≈ n·1e-30 for float) in absolute value: `compute` zeroes them whatever `‖H‖` is (the LAPACK `dlahqr` criterion), so for
   `H = 1e-295·[1 2 3; 4 5 6; 0 7 8]` the returned matrix is the upper triangle of `H`, at distance 7e-295 = O(‖H‖) from `QᵀHQ`.
-  The theorem below is the mechanism, proved on the model for every `H`; the similarity clause itself is not proved for
-  DoubleShiftQR at all (see "not proved" at the end of this file), so no `…_partial` similarity theorem carries the excluding
-  hypothesis `min()·10·n/eps < |H(i+1,i)| ∨ H(i+1,i) = 0`; the oracle evaluates the clause on inputs with `‖H‖ ≥ 1e-140`.
+  The theorem below is the mechanism, proved on the model for every `H`; the whole-matrix similarity theorem
+  `c08_dsqr_similarity_partial` (section 7) makes the dropped entries explicit instead of excluding them:
+  `matrix_QtHQ = Qᵀ (Hm − D₁) Q − D₂` with `D₁`, `D₂` supported on the subdiagonal entries that pass the (absolute or relative)
+  deflation test; the oracle evaluates the clause on inputs with `‖H‖ ≥ 1e-140`.
 -/
 /-- the first pass of `DoubleShiftQR::compute` replaces a subdiagonal entry with `|h| ≤ eps_abs` by an exact zero and starts a
     new block there, for EVERY value of the neighbouring diagonal entries (an absolute, not a relative, test) -/
@@ -606,6 +610,109 @@ theorem c08_dsqr_first_col_parallel_partial (hsq : ∀ x : K, 0 ≤ x → F.sqrt
 
 end dsqr_matrix
 
+/-! ### (7) DoubleShiftQR: the similarity transform as a whole-matrix theorem -/
+
+section dsqr_similarity
+open Lin C08DsqrQ C08DsqrMatrix C08DsqrSim C08HessMatrix Matrix
+
+/-
+  THE SIMILARITY CLAUSE FOR DoubleShiftQR, full strength:
+
+      ∀ n ≥ 3, ∀ H upper Hessenberg (finite), ∀ s t :   Q orthogonal,  ‖matrix_QtHQ − QᵀHQ‖ ≤ c·n·eps·(‖H‖ + |s|),
+      matrix_QtHQ upper Hessenberg,   in IEEE arithmetic, including zero / negligible subdiagonal entries.
+
+  What is proved below is its exact-arithmetic content for EVERY size n ≥ 1, every input matrix (hence every deflation pattern and
+  block split: blocks of size 1, 2 and ≥ 3, the whole bulge chase), all shifts, with the entries `compute` drops made explicit:
+
+      matrix_QtHQ = Qᵀ (Hm − D₁) Q − D₂,    QᵀQ = QQᵀ = 1,    Qᵀ (Hm − D₁) Q and matrix_QtHQ upper Hessenberg with EXACT zeros,
+
+  `Q = P₀ P₁ ⋯ P_{n−2}` the SAME matrix `apply_YQ` / `apply_QtY` multiply by (`c08_dsqr_matrix_apply`), `Hm` the upper Hessenberg
+  part of the argument (`compute` ignores the rest), `D₁` / `D₂` supported on the subdiagonal positions whose entry `h` of `Hm` /
+  of `Qᵀ (Hm − D₁) Q` passes the deflation test `|h| ≤ eps_abs ∨ |h| ≤ eps (|d₀| + |d₁|)`, `eps_abs = m_near_0 · (n / eps)`.
+  It is `_partial` because of three hypotheses:
+    * `hsq`, `hcut` (exact square root, series branch of `stable_scaling` disabled): the rounding part of the clause is not proved;
+    * `hex : RunExact F mat s t`: NO argument `x2` / `x3` of any `compute_reflector` call made by `compute` lies in the underflow
+      window `0 < |x| < m_near_0 = 10·min()`.  Inside that window the real code (and the model) treats the argument as zero
+      without making it zero: it stores a non-unit 2-row reflector or the identity and leaves a nonzero entry below the
+      subdiagonal that later reflectors never see, so neither `QᵀQ = 1` nor the similarity nor the Hessenberg shape hold EXACTLY
+      (the defect is `O(m_near_0)`, i.e. it belongs to the rounding part and to known finding C08-F1's regime `‖H‖ ≈ min()/eps`).
+      For IEEE inputs with `‖H‖ ≥ 1e-140` the window is never entered except by exact zeros.
+  The implicit-Q statement (first column of `Q` parallel to `(H² − sH + tI) e₁`) is `c08_dsqr_first_col_parallel_partial`.
+-/
+
+/-- whole-matrix similarity of `DoubleShiftQR::compute` (exact arithmetic, all n, all inputs, all shifts, all deflation patterns) -/
+theorem c08_dsqr_similarity_partial (hsq : ∀ x : K, 0 ≤ x → F.sqrt x * F.sqrt x = x ∧ 0 ≤ F.sqrt x) (hcut : cutoff F ≤ 0)
+    (hmin : 0 < F.minPos) (mat : Mat K) (s t : K) (hn : 1 ≤ mat.rows) (hex : RunExact F mat s t) :
+    let n := mat.rows
+    let q := comp F mat s t
+    let Q : Matrix (Fin n) (Fin n) K := Qdof F q
+    let e : K := epsA F mat
+    let Hm : Matrix (Fin n) (Fin n) K := hessPart F mat
+    let D₁ : Matrix (Fin n) (Fin n) K := dropOf F e Hm
+    let B : Matrix (Fin n) (Fin n) K := Qᵀ * (Hm - D₁) * Q
+    let D₂ : Matrix (Fin n) (Fin n) K := dropOf F e B
+    let T : Matrix (Fin n) (Fin n) K := toM F n n (DoubleShiftQR.matrix_QtHQ q)
+    (Qᵀ * Q = 1 ∧ Q * Qᵀ = 1) ∧
+    T = B - D₂ ∧
+    (∀ i j : Fin n, j.val + 1 < i.val → B i j = 0) ∧
+    (∀ i j : Fin n, j.val + 1 < i.val → T i j = 0) ∧
+    -- what `Hm`, `D₁`, `D₂` are
+    (∀ i j : Fin n, Hm i j = if i.val ≤ j.val + 1 then C08DsqrQ.mget F mat i.val j.val else 0) ∧
+    (∀ i j : Fin n, D₁ i j =
+      if i.val = j.val + 1 ∧ (|Hm i j| ≤ e ∨ |Hm i j| ≤ F.eps * (|Hm j j| + |Hm i i|)) then Hm i j else 0) ∧
+    (∀ i j : Fin n, D₂ i j =
+      if i.val = j.val + 1 ∧ (|B i j| ≤ e ∨ |B i j| ≤ F.eps * (|B j j| + |B i i|)) then B i j else 0) := by
+  intro n q Q e Hm D₁ B D₂ T
+  obtain ⟨h1, h2, h3, h4⟩ := dsqr_similarity F hsq hcut hmin mat s t hn hex Q B rfl rfl
+  exact ⟨h1, h2, h3, h4, fun _ _ => rfl, fun _ _ => rfl, fun _ _ => rfl⟩
+
+/-- corollary: when neither pass drops an entry (`D₁ = 0`, `D₂ = 0`), `matrix_QtHQ = Qᵀ Hm Q` EXACTLY with `Q` orthogonal — an
+    orthogonal similarity, so the characteristic polynomial (hence every eigenvalue with its multiplicity) is preserved — and the
+    result is upper Hessenberg again -/
+theorem c08_dsqr_similarity_nodrop_partial (hsq : ∀ x : K, 0 ≤ x → F.sqrt x * F.sqrt x = x ∧ 0 ≤ F.sqrt x)
+    (hcut : cutoff F ≤ 0) (hmin : 0 < F.minPos) (mat : Mat K) (s t : K) (hn : 1 ≤ mat.rows) (hex : RunExact F mat s t)
+    (hd1 : ∀ i j : Fin mat.rows, i.val = j.val + 1 →
+      ¬ (|hessPart F mat i j| ≤ epsA F mat ∨
+         |hessPart F mat i j| ≤ F.eps * (|hessPart F mat j j| + |hessPart F mat i i|)))
+    (Q : Matrix (Fin mat.rows) (Fin mat.rows) K) (hQ : Q = Qdof F (comp F mat s t))
+    (hd2 : ∀ i j : Fin mat.rows, i.val = j.val + 1 →
+      ¬ (|(Qᵀ * hessPart F mat * Q) i j| ≤ epsA F mat ∨
+         |(Qᵀ * hessPart F mat * Q) i j| ≤
+           F.eps * (|(Qᵀ * hessPart F mat * Q) j j| + |(Qᵀ * hessPart F mat * Q) i i|))) :
+    let n := mat.rows
+    let Hm : Matrix (Fin n) (Fin n) K := hessPart F mat
+    let T : Matrix (Fin n) (Fin n) K := toM F n n (DoubleShiftQR.matrix_QtHQ (comp F mat s t))
+    (Qᵀ * Q = 1 ∧ Q * Qᵀ = 1) ∧ T = Qᵀ * Hm * Q ∧ T.charpoly = Hm.charpoly ∧
+    (∀ i j : Fin n, j.val + 1 < i.val → T i j = 0) := by
+  intro n Hm T
+  have z1 : dropOf F (epsA F mat) Hm = 0 := by
+    ext i j
+    rw [dropOf_apply, Matrix.zero_apply]
+    by_cases h : i.val = j.val + 1
+    · rw [if_neg (fun hh => hd1 i j h hh.2)]
+    · rw [if_neg (fun hh => h hh.1)]
+  have z2 : dropOf F (epsA F mat) (Qᵀ * Hm * Q) = 0 := by
+    ext i j
+    rw [dropOf_apply, Matrix.zero_apply]
+    by_cases h : i.val = j.val + 1
+    · rw [if_neg (fun hh => hd2 i j h hh.2)]
+    · rw [if_neg (fun hh => h hh.1)]
+  obtain ⟨h1, h2, _, h4⟩ := dsqr_similarity F hsq hcut hmin mat s t hn hex Q _ hQ rfl
+  rw [z1, sub_zero, z2, sub_zero] at h2
+  refine ⟨h1, h2, ?_, h4⟩
+  show (toM F n n (comp F mat s t).H).charpoly = Hm.charpoly
+  rw [h2, Matrix.mul_assoc, Matrix.charpoly_mul_comm, Matrix.mul_assoc, h1.2, Matrix.mul_one]
+
+/-- `RunExact` holds on runs that really store a reflector: for EVERY 2 × 2 input whose subdiagonal entry is not deflated and whose
+    `m10 = h₁₀ (h₀₀ + h₁₁ − s)` is not below `m_near_0`, `compute` makes exactly one `compute_reflector(m00, m10, 0)` call -/
+theorem c08_dsqr_runexact_two (hmin : 0 < F.minPos) (mat : Mat K) (s t : K) (h2 : mat.rows = 2)
+    (hd : dfl F (epsA F mat) mat 0 = false)
+    (hbig : ¬ |C08DsqrQ.mget F mat 1 0 * (C08DsqrQ.mget F mat 0 0 + C08DsqrQ.mget F mat 1 1 - s)| < C08Refl.nz F) :
+    RunExact F mat s t :=
+  runExact_two F hmin mat s t h2 hd hbig
+
+end dsqr_similarity
+
 /-! ### hypotheses are satisfiable -/
 
 /-- the upper Hessenberg hypothesis of `c08_dsqr_first_col` holds e.g. for the identity -/
@@ -619,6 +726,16 @@ example : ∀ i j : Fin (0 + 3), j.val + 1 < i.val → (1 : Matrix (Fin 3) (Fin 
 example : ∃ F : FieldFns ℝ, (∀ x : ℝ, 0 ≤ x → F.sqrt x * F.sqrt x = x ∧ 0 ≤ F.sqrt x) ∧ C08Givens.cutoff F ≤ 0 ∧ 0 < F.minPos :=
   ⟨⟨Real.sqrt, fun _ _ => 0, 1, 1⟩, fun x hx => ⟨Real.mul_self_sqrt hx, Real.sqrt_nonneg x⟩, by simp [C08Givens.cutoff], by norm_num⟩
 
+/-- the hypotheses of `c08_dsqr_similarity_partial` (exact square root, series branch disabled, `0 < min()`, `n ≥ 1`, and
+    `RunExact`: no `compute_reflector` argument in the underflow window) hold SIMULTANEOUSLY on a run that stores a genuine
+    reflector: over ℝ with `Real.sqrt`, `min() = 1`, `eps = 1`, `H = [1 0; 100 0]`, `s = t = 0` (subdiagonal entry not deflated,
+    `m10 = 100 ≥ m_near_0 = 10`; `C08DsqrSim.ex_hyps`).  A concrete instance over ℚ is impossible because `hsq` asks for a
+    square root of EVERY non-negative element; `c08_dsqr_runexact_two` gives `RunExact` for every such 2 × 2 input -/
+example : ∃ (F : FieldFns ℝ) (mat : Lin.Mat ℝ) (s t : ℝ),
+    (∀ x : ℝ, 0 ≤ x → F.sqrt x * F.sqrt x = x ∧ 0 ≤ F.sqrt x) ∧ C08Givens.cutoff F ≤ 0 ∧ 0 < F.minPos ∧ 1 ≤ mat.rows ∧
+    C08DsqrSim.RunExact F mat s t ∧ C08DsqrMatrix.dfl F (C08DsqrMatrix.epsA F mat) mat 0 = false :=
+  ⟨C08DsqrSim.exF, C08DsqrSim.exMat, 0, 0, C08DsqrSim.ex_hyps⟩
+
 /-- `c² + s² = 1` is satisfiable with both entries nonzero (3-4-5) -/
 example : ((3 : ℚ) / 5) * (3 / 5) + (4 / 5) * (4 / 5) = 1 := by norm_num
 
@@ -627,12 +744,11 @@ example : ((3 : ℚ) / 5) * (3 / 5) + (4 / 5) * (4 / 5) = 1 := by norm_num
   * Rounding.  `‖QᵀQ − I‖ ≤ c·n·eps`, `‖QR − (H − sI)‖, ‖QtHQ − QᵀHQ‖, ‖apply_*(Y) − Q·Y‖ ≤ c·n·eps·(‖H‖+|s|)` in IEEE arithmetic for
     float / double / long double: evaluated on the real classes in long double by harness/c08.cpp (c = 64), never proved.
     The series branches are covered only by their exact defect bounds (`c08_givens_series`, `c08_refl_series`).
-  * DoubleShiftQR similarity `matrix_QtHQ = Qᵀ H Q` and "matrix_QtHQ is upper Hessenberg" as whole-matrix theorems: the bulge-chase
-    loop applies each reflector to row/column ranges that are complete only because earlier reflectors annihilated the bulge
-    exactly; that invariant is not formalised.  Proved instead: the reflector kernel, both apply methods = multiplication by
-    `Q`/`Qᵀ`, `Q e₁ ∥ (H²−sH+tI)e₁` for the computed factorization, index safety, and the correspondence ties the model to the
-    real class bit-exactly.  Also not proved: that EVERY reflector stored by `compute` is a unit vector (it is proved per call of
-    `compute_reflector` in the standard branch; the two-row case with `0 < |x₃| < near_0` is inexact by design).
+  * DoubleShiftQR similarity / Hessenberg shape / orthogonality of `Q` as whole-matrix theorems ARE proved in exact arithmetic
+    (`c08_dsqr_similarity_partial`, `c08_dsqr_similarity_nodrop_partial`) for every run none of whose `compute_reflector`
+    arguments lies in the underflow window `0 < |x| < m_near_0` (`C08DsqrSim.RunExact`).  NOT proved: the same inside that window
+    (there the identities are false exactly: the code treats the argument as zero without zeroing it; defect `O(m_near_0)`), and
+    the first-column statement for 2x2 / 1x1 first blocks in instantiated form (local statement: `C08DsqrMatrix.first_col_parallel2`).
   * The clause fails near the underflow threshold for DoubleShiftQR: known finding C08-F1 above.
 -/
 
